@@ -3684,7 +3684,10 @@ impl Compiler {
                 let call_result = if let Some(function_register) =
                     self.frame().get_local_assigned_register(*id)
                 {
-                    self.compile_call(function_register, &[], pipe_register, None, ctx)
+                    // The result register has already been assigned, see above
+                    let call_context = ctx.with_register(call_result_register);
+                    self.compile_call(function_register, &[], pipe_register, None, call_context)?;
+                    Ok(result)
                 } else {
                     let call_result_register = if let Some(result_register) = result.register {
                         ResultRegister::Fixed(result_register)
